@@ -1467,3 +1467,102 @@ def co_exec_census(ctx, crate, files):
                       "%s can now call %s and return normally without calling %s, which accompanied that call on every path in the reviewed tree: the follow-up of a step was dropped or put behind a new condition" % (short(b.id), x, y),
                       where_of(b))
     ctx.info("call sites compared with the co-execution table: %d" % n)
+
+
+# ---------------------------------------------------------------------------- census of the code under `if CHECKS`
+_GHOST_IGNORE = {"new_display", "new_debug", "new", "new_const", "new_v1", "panic_fmt", "assert_failed", "panic", "fmt", "deref", "clone", "borrow", "as_ref",
+                 "into_iter", "iter", "next", "len", "eq", "ne", "unwrap", "expect", "is_some", "is_none", "index", "get", "contains", "contains_key",
+                 "collect", "map", "cloned", "to_string", "into", "from", "default", "drop"}
+
+
+def ghost_calls(crate, b):
+    """names of the library functions (and notable std ones) called from blocks that run only under `if CHECKS` in b and its closures"""
+    out = set()
+    for sub in b.all_bodies():
+        g = sub.ghost_blocks()[0]
+        for c in sub.calls:
+            if c.bb in g and c.callee and c.callee.name and c.callee.name not in _GHOST_IGNORE:
+                out.add(c.callee.name)
+    return out
+
+
+def ghost_table(crate):
+    tab = {}
+    per = {}
+    for b in crate.fns():
+        if b.kind == "Closure" or b.auto_derived or not (b.file or "").startswith("src/") or not b.name or (b.file or "").endswith("tst.rs"):
+            continue
+        per.setdefault(_mc_key(b), []).append(b)
+    for k, bs in per.items():
+        if len(bs) != 1:
+            continue
+        g = ghost_calls(crate, bs[0])
+        if g:
+            tab[k] = sorted(g)
+    return tab
+
+
+def ghost_census(ctx, crate):
+    """GA: the assertions compiled in by `--features checks` are the reviewed ones.  Each of them is a proof obligation ("this
+    always holds") that was checked against the invariants when it was written; the analysis cannot discharge a new one.  A
+    function whose `if CHECKS` code calls something it did not call in the reviewed tree has a new or re-worded assertion:
+    reported as unreviewed (an assertion that is stricter than the invariant aborts `checks` builds on valid inputs)."""
+    global _MUSTCALL
+    import json as _json, os as _os
+    if _MUSTCALL is None:
+        try:
+            _MUSTCALL = _json.load(open(_os.path.join(_os.path.dirname(_os.path.dirname(_os.path.abspath(__file__))), "mustcall.json")))
+        except Exception:
+            _MUSTCALL = {}
+    ref = _MUSTCALL.get("ghost:" + (ctx.cur_cfg or "default")) or _MUSTCALL.get("ghost:default")
+    if ref is None:
+        raise AnchorMissing("mustcall.json", "no table of the calls under `if CHECKS`")
+    all_ref = set()
+    for v in ref.values():
+        all_ref |= set(v)
+    by_key, by_name = {}, {}
+    for b in crate.fns():
+        if b.kind == "Closure" or not b.name or not (b.file or "").startswith("src/") or b.auto_derived:
+            continue
+        by_key.setdefault(_mc_key(b), []).append(b)
+        by_name.setdefault(b.name, []).append(b)
+    aliases = getattr(crate, "aliases", {})
+    n = 0
+    for k, bs in sorted(by_key.items()):
+        if len(bs) != 1:
+            continue
+        b = bs[0]
+        g = ghost_calls(crate, b)
+        if not g:
+            continue
+        n += 1
+        want = set(ref.get(k) or [])
+        if not want:
+            # moved / renamed function: found under its old name
+            for k2, v in ref.items():
+                if k2.rsplit("::", 1)[1] == (aliases.get(b.id) or b.name):
+                    want |= set(v)
+        # a helper the ghost code was split into keeps the names of what it calls; calls of functions that did not exist in the
+        # reviewed tree are looked through one level
+        known_fns = {kk.rsplit("::", 1)[1] for kk in ref} | all_ref
+        new = set()
+        for nm in g - want:
+            ts = [t for t in by_name.get(nm, [])]
+            if ts and nm not in _anchor_names(crate):
+                inner = set()
+                for t in ts:
+                    inner |= {c.callee.name for c in t.all_calls() if c.callee and c.callee.name and c.callee.name not in _GHOST_IGNORE}
+                new |= {x for x in inner if x not in want}
+            else:
+                new.add(nm)
+        ctx.check(not new, "ghost-census:" + fkey(b), "the `if CHECKS` code of %s calls nothing it did not call in the reviewed tree" % short(b.id),
+                  "the code of %s that runs only with `--features checks` now calls %s, which it did not in the reviewed tree: a new or re-worded internal assertion. Every such assertion claims an invariant; one that is stricter than what the library guarantees (exact equality where only equality modulo the class's symmetries holds, ..) aborts assertion builds on valid inputs" % (short(b.id), sorted(new)),
+                  where_of(b))
+    ctx.floor("functions with code under `if CHECKS`", n, 5)
+
+
+def _anchor_names(crate):
+    k = "anchor_names_all"
+    if k not in crate._cache:
+        crate._cache[k] = {kk.rsplit("::", 1)[1] for kk in mir._anchors()}
+    return crate._cache[k]
